@@ -530,6 +530,8 @@ def check(ctx):
     if not only or 'mc' in only:
         res = run_mc(ctx, 'MPOAlgebra-depth2', 'ConfigsQuick' if quick else 'ConfigsFull', 2, 1 if quick else 0, 6 if quick else 3)
         runs = [res]
+        # is_equal / is_hermitian with the documented default window for an operand of unknown range (L + 2 L sites)
+        runs.append(run_mc(ctx, 'MPOAlgebra-window', 'ConfigsBig', 2, 1, 1))
         if not quick:
             runs.append(run_mc(ctx, 'MPOAlgebra-depth3', 'ConfigsQuick', 3, 1, 4))
         cov = {}
@@ -541,7 +543,7 @@ def check(ctx):
         if missing:
             raise core.MachineryError('actions never taken in the MC runs (vacuous): %r' % missing)
     if not only or 'sim' in only:
-        run_sim(ctx, 'ConfigsQuick' if quick else 'ConfigsFull', 120 if quick else 1500, 6)
+        run_sim(ctx, 'ConfigsQuick' if quick else 'ConfigsFull', 80 if quick else 1500, 6)
     if not only or 'canary' in only:
         run_canary(ctx)
     ctx.exhaustive = False
